@@ -135,6 +135,10 @@ def check(pid, tier, seed, nshards=None) -> int:
     m = merge(parts) if parts else None
     verdict, lines = "held", []
     evidence_path = core.EVID / f"{pid}.json"
+    if str(core.SRC) != "/repo":
+        # runs against a scratch tree (monitor validation) never touch the committed evidence
+        (core.OUT / "evidence-scratch").mkdir(exist_ok=True)
+        evidence_path = core.OUT / "evidence-scratch" / f"{pid}.json"
     if m is None:
         verdict = "inconclusive"
         m = merge([])
@@ -152,7 +156,7 @@ def check(pid, tier, seed, nshards=None) -> int:
     for a in missing:
         problems.append(f"anchor never executed: {a}")
     # violations
-    rdir = core.OUT / "replay" / pid
+    rdir = core.OUT / ("replay" if str(core.SRC) == "/repo" else "replay-scratch-" + core.slug(str(core.SRC))) / pid
     rdir.mkdir(parents=True, exist_ok=True)
     for old_file in rdir.glob("*.json"):
         old_file.unlink()
